@@ -11,6 +11,7 @@ import (
 	"strings"
 
 	"github.com/tableauio/tableau/format"
+	"github.com/tableauio/tableau/options"
 )
 
 // resolve per the property statement: most specific non-zero, else default
@@ -178,6 +179,11 @@ func init() {
 		if !reflect.DeepEqual(got, expected) {
 			return "bad"
 		}
+		// name line / type line: name and type share one header cell (line 1 / line 2); the lines are configured at the
+		// sheet, book or global level; AdjacentKey fills blank key cells only when the TYPE line was found
+		if r := c14LineTwin(int(s.nr+b.tr+g.dr) % 3); r != "ok" {
+			return r
+		}
 		// the same resolution for a document workbook (YAML): sheet > book '#' > global > default separators
 		if r := c14YAMLTwin(s, b, g, hasBook, hasGlobal, sep, subsep); r != "ok" {
 			return r
@@ -274,6 +280,68 @@ func c14YAMLTwin(s, b, g level, hasBook, hasGlobal bool, sep, subsep string) str
 			println("YAML got", string(data), sb.String())
 		}
 		return "bad-yaml"
+	}
+	return "ok"
+}
+
+// c14LineTwin: the same data in the default layout and in a one-row header (name on line 1, type on line 2 of each
+// header cell) whose options are set at `where` (0 sheet, 1 book '#', 2 global): identical conf output.
+func c14LineTwin(where int) string {
+	names := []string{"ID", "PropID", "Value"}
+	types := []string{"map<uint32, Item>", "map<int32, Prop>", "int32"}
+	data := [][]string{{"1", "1", "10"}, {"", "2", "20"}, {"2", "1", "30"}, {"", "2", "40"}, {"", "3", "50"}}
+	run := func(lines bool) (string, string) {
+		w := newWorkspace()
+		defer w.cleanup()
+		meta := map[string]string{"AdjacentKey": "true"}
+		var rows [][]string
+		ro := runOpts{}
+		bk := bookSpec{Name: "Book"}
+		if lines {
+			hdr := make([]string, len(names))
+			for i := range names {
+				hdr[i] = names[i] + "\n" + types[i]
+			}
+			rows = append(rows, hdr, []string{"n", "n", "n"})
+			opt := map[string]string{"Namerow": "1", "Typerow": "1", "Noterow": "2", "Datarow": "3", "Nameline": "1", "Typeline": "2"}
+			switch where {
+			case 0:
+				for k, v := range opt {
+					meta[k] = v
+				}
+			case 1:
+				bk.BookMeta = opt
+			default:
+				ro.Header = &options.HeaderOption{NameRow: 1, TypeRow: 1, NoteRow: 2, DataRow: 3, NameLine: 1, TypeLine: 2}
+			}
+		} else {
+			rows = append(rows, names, types, []string{"n", "n", "n"})
+		}
+		rows = append(rows, data...)
+		bk.Sheets = []sheetSpec{{Name: "ItemConf", Rows: rows, Meta: meta}}
+		w.writeCSVBook("", bk)
+		if err := w.genProto(ro); err != nil {
+			return "", "protoerr " + errCode(err)
+		}
+		if err := w.genConf(ro); err != nil {
+			return "", "conferr " + errCode(err)
+		}
+		b, err := os.ReadFile(filepath.Join(w.Conf, "ItemConf.json"))
+		if err != nil {
+			return "", "nofile"
+		}
+		return string(b), ""
+	}
+	want, e1 := run(false)
+	got, e2 := run(true)
+	if e1 != "" {
+		return "bad default-layout " + e1
+	}
+	if e2 != "" {
+		return "bad lines " + e2
+	}
+	if want != got {
+		return "bad lines-differ"
 	}
 	return "ok"
 }
